@@ -305,7 +305,14 @@ class TraceLoader(SourceFileLoader):
                     self._register_guards(code)
                 elif not table_is_fresh:
                     # read the pickled bookkeeping and use it to update ast bookkeeping / remapping
-                    assert source_path not in tracer.ast_bookkeeper_by_fname
+                    old_bookkeeping = tracer.ast_bookkeeper_by_fname.pop(source_path, None)
+                    if old_bookkeeping is not None:
+                        # the module was rewritten earlier in this process and is loaded again
+                        # (importlib.reload, or a fresh import after eviction from sys.modules):
+                        # its cached bytecode comes with its own node table
+                        tracer.remove_bookkeeping(
+                            old_bookkeeping, old_bookkeeping.module_id
+                        )
                     with open(pickle_path, "rb") as f:
                         new_bookkeeping, remapping = pickle.load(f).remap(id(module))
                     tracer.add_bookkeeping(new_bookkeeping, id(module))
